@@ -1,1 +1,143 @@
 // verification harness (compiled into ntp-proto/src/config.rs under cfg(all(test, pendulum_project_ntpd_rs_verif)))
+//
+// Harness for spec/ConfigThresholds.tla (C39), path "proto": feeds every threshold class [key, form, val] straight into
+// the serde visitors of StepThreshold / ThresholdPart and of the accumulated-threshold helper, through serde's value
+// deserializers (a float deserializer can carry NaN and infinities, as a TOML document can), and reports
+// verdict ok / err / panic and the class (none / zero / pos / neg) of the accepted forward and backward limits.
+#![allow(clippy::all, dead_code)]
+
+use super::*;
+use serde::de::value::{Error as VErr, MapDeserializer};
+use serde::de::IntoDeserializer;
+use serde_json::{Value, json};
+
+#[path = "/verif/harness/common/util.rs"]
+mod util;
+
+#[derive(Clone, Debug)]
+enum V {
+    F(f64),
+    I(i64),
+    S(String),
+    B(bool),
+}
+
+struct VDe(V);
+
+impl<'de> Deserializer<'de> for VDe {
+    type Error = VErr;
+    fn deserialize_any<Vis: Visitor<'de>>(self, v: Vis) -> Result<Vis::Value, VErr> {
+        match self.0 {
+            V::F(x) => v.visit_f64(x),
+            V::I(x) => v.visit_i64(x),
+            V::S(s) => v.visit_string(s),
+            V::B(b) => v.visit_bool(b),
+        }
+    }
+    serde::forward_to_deserialize_any! {
+        bool i8 i16 i32 i64 i128 u8 u16 u32 u64 u128 f32 f64 char str string bytes byte_buf option unit unit_struct
+        newtype_struct seq tuple tuple_struct map struct enum identifier ignored_any
+    }
+}
+
+impl<'de> IntoDeserializer<'de, VErr> for V {
+    type Deserializer = VDe;
+    fn into_deserializer(self) -> VDe {
+        VDe(self)
+    }
+}
+
+pub(crate) fn value_of(class: &str) -> V {
+    match class {
+        "neg" => V::F(-1.5),
+        "negint" => V::I(-3),
+        "negzero" => V::F(-0.0),
+        "zero" => V::F(0.0),
+        "pos" => V::F(2.25),
+        "posint" => V::I(7),
+        "pinf" => V::F(f64::INFINITY),
+        "ninf" => V::F(f64::NEG_INFINITY),
+        "nan" => V::F(f64::NAN),
+        "infstr" => V::S("inf".to_string()),
+        "otherstr" => V::S("many".to_string()),
+        "bool" => V::B(true),
+        c => panic!("unknown value class {c}"),
+    }
+}
+
+fn cls(d: Option<NtpDuration>) -> &'static str {
+    match d {
+        None => "none",
+        Some(d) if d < NtpDuration::ZERO => "neg",
+        Some(d) if d == NtpDuration::ZERO => "zero",
+        Some(_) => "pos",
+    }
+}
+
+fn pairs(form: &str, v: V) -> Vec<(String, V)> {
+    match form {
+        "fwd" => vec![("forward".to_string(), v)],
+        "bwd" => vec![("backward".to_string(), v)],
+        "both" => vec![("forward".to_string(), v), ("backward".to_string(), V::F(1.5))],
+        "both2" => vec![("forward".to_string(), V::F(2.5)), ("backward".to_string(), v)],
+        f => panic!("unknown form {f}"),
+    }
+}
+
+fn load(c: &Value) -> (Value, Option<String>) {
+    let key = c["key"].as_str().unwrap().to_string();
+    let form = c["form"].as_str().unwrap().to_string();
+    let v = value_of(c["val"].as_str().unwrap());
+    let r = util::catch(move || -> Result<(Option<NtpDuration>, Option<NtpDuration>), String> {
+        if key == "accumulated-step-panic-threshold" {
+            let d = if form == "number" {
+                deserialize_option_accumulated_step_panic_threshold(VDe(v))
+            } else {
+                deserialize_option_accumulated_step_panic_threshold(MapDeserializer::<_, VErr>::new(pairs(&form, v).into_iter()))
+            }
+            .map_err(|e| e.to_string())?;
+            Ok((d, d))
+        } else {
+            let t = if form == "number" {
+                StepThreshold::deserialize(VDe(v))
+            } else {
+                StepThreshold::deserialize(MapDeserializer::<_, VErr>::new(pairs(&form, v).into_iter()))
+            }
+            .map_err(|e| e.to_string())?;
+            Ok((t.forward, t.backward))
+        }
+    });
+    match r {
+        Ok(Ok((f, b))) => (json!({"verdict": "ok", "fwd": cls(f), "bwd": cls(b)}), None),
+        Ok(Err(e)) => (json!({"verdict": "err", "fwd": "-", "bwd": "-", "error": e}), None),
+        Err(p) => (json!({"verdict": "panic", "fwd": "-", "bwd": "-"}), Some(p)),
+    }
+}
+
+fn replay(job: &Value) {
+    let rows = util::read_ndjson(job["input"].as_str().unwrap());
+    let mut out = util::NdjsonOut::create(job["output"].as_str().unwrap());
+    for r in rows {
+        let (obs, panic) = load(&r["act"]["c"]);
+        let mut d: Vec<String> = vec![];
+        if panic.is_some() {
+            d.push("panic".to_string());
+        }
+        for k in ["verdict", "fwd", "bwd"] {
+            if r["out"][k] != obs[k] {
+                d.push(format!("out.{k}"));
+            }
+        }
+        out.put(&json!({"id": r["id"], "fields": d, "observed": obs, "panic": panic}));
+    }
+    out.finish();
+}
+
+#[test]
+fn verif_config() {
+    let job = util::job();
+    match job["mode"].as_str().unwrap() {
+        "replay" => replay(&job),
+        m => panic!("unknown mode {m}"),
+    }
+}
